@@ -27,6 +27,7 @@ CLASSICS = ['../x', '/abs', '/etc/passwd', 'a/../../b', '..;a=b', ';a=../..', '.
             # unicode look-alikes of '.', '..' and '/' (compatibility forms), composed vs decomposed letters
             'x.\u2025.\u2025.\u2025.outside', '\u2025/\u2025/x', '\uff0fabs', '\uff0f\uff0fx', 'a\uff0f..\uff0f..\uff0fb', '\u2024\u2024/x',
             'a.\uff0e\uff0e.b', '\ufe52\ufe52/x', 'x;t=\u2025/\u2025/\u2025/y', 'x;t=\uff0fabs', '\u2215abs', '\u2044abs', '\u29f8abs',
+            'a;b=\ud800', '\udc80;x=y', 'm;t=\udfff.z', 'plain\ud800', 'a;b=\ud800', 'a;b=c', 'a;b=\ud800',
             'app.\uff42.count', 'app.b.count', 'caf\u00e9.x', 'cafe\u0301.x', '\uff21.b', 'A.b', '\u2460.x', '1.x', '\ufb01.x', 'fi.x']
 UNI_ALPHA = ['.', '/', 'a', ';', '\u2025', '\u2024', '\uff0f', '\uff0e']
 
@@ -72,7 +73,7 @@ def run_config(cfg, res):
         yield c
       for _ in range(3000 if cfg['tier'] == 'quick' else 40000):
         n = r.randint(5, 40)
-        yield ''.join(r.choice(ALPHA + ['b', 'c', '..', '/../', '中', '_tagged', ';x=', '\u2025', '\uff0f', '\uff0e', '\u2024']) for _ in range(n))
+        yield ''.join(r.choice(ALPHA + ['b', 'c', '..', '/../', '中', '_tagged', ';x=', '\u2025', '\uff0f', '\uff0e', '\u2024', ';t=\ud800']) for _ in range(n))
     # second exhaustive family: unicode compatibility look-alikes of the path characters (length <= 4)
     if first in UNI_ALPHA or first == ALPHA[1]:
       f2 = UNI_ALPHA[ALPHA.index(first) % len(UNI_ALPHA)] if first not in UNI_ALPHA else first
@@ -90,6 +91,7 @@ def run_config(cfg, res):
         yield first + ''.join(rest)
 
   seen_paths = {}
+  nfresh = [0]
   created = 0
   create_budget = 1500 if cfg['tier'] == 'quick' else 8000
   label = '%s/hash=%s' % (backend, cfg['hashf'])
@@ -97,16 +99,38 @@ def run_config(cfg, res):
     nontrivial = any(ch in name for ch in './;~')
     try:
       p1 = db.getFilesystemPath(name)
-      p2 = db.getFilesystemPath(name)
     except Exception as e:
       res.count('path_function_raised')
       res.case((label, name), nontrivial)
-      # raising is acceptable (name rejected) but must be deterministic in kind
+      # raising is acceptable (name rejected) but the mapping must stay a function: asking again must raise again
+      try:
+        again = db.getFilesystemPath(name)
+      except Exception:
+        continue
+      res.violation(label + '/nondeterministic/raised-then-returned', 'getFilesystemPath(%r) raised %r, the next call returned %r' % (name, e, again),
+                    dict(name=name))
       continue
+    p2 = db.getFilesystemPath(name)
     res.count('path_evaluations')
+    # the mapping may not depend on what was asked before: compare with an instance that has never seen another name
+    nfresh[0] += 1
+    if nfresh[0] % 7 == 0:
+      fresh = type(db)(ns.settings)
+      try:
+        pf = fresh.getFilesystemPath(name)
+      except Exception as e:
+        pf = 'raised %r' % (e,)
+      res.count('fresh_instance_comparisons')
+      if pf != p1:
+        res.violation(label + '/history-dependent', 'name %r maps to %r after other names were resolved, but to %r on a fresh database object' % (name, p1, pf),
+                      dict(name=name))
     if p1 != p2:
       res.violation(label + '/nondeterministic', 'name %r maps to %r then %r' % (name, p1, p2), dict(name=name))
-    rp = os.path.realpath(p1)
+    try:
+      rp = os.path.realpath(p1)
+    except UnicodeEncodeError:      # a lone surrogate in the name: no file can be created under it; judge the string
+      rp = os.path.normpath(p1)
+      res.count('unencodable_paths')
     inside = rp.startswith(real_data + os.sep) or rp == real_data   # the root itself is not an escape
     if not inside:
       kind = 'absolute' if name.startswith('/') else ('dotdot' if '..' in os.path.normpath(os.path.relpath(rp, real_data)) else 'other')
@@ -132,6 +156,37 @@ def run_config(cfg, res):
     res.case((label, name), nontrivial)
     if nontrivial:
       res.sample(dict(backend=backend, hashf=cfg['hashf'], name=name, path=p1))
+  # two threads (the writer and the reactor serving get-/set-metadata) resolve different names at the same time: each must
+  # get the path of its own name, at every interleaving of source lines
+  if first == ALPHA[0]:
+    from vlib import sched as S
+    pairs = [('a.b.c', 'x.y'), ('t;k=v', 'u;k=w'), ('m1', 'm1;a=b'), ('é.x', 'a./b')]
+    for (na, nb) in pairs:
+      expect = {na: db.getFilesystemPath(na), nb: db.getFilesystemPath(nb)}
+      def run(dev):
+        sc = S.Scheduler(S.DeviationPolicy(dev), trace_files={'database.py', 'util.py'})
+        got = {}
+        def ta():
+          got['a'] = [db.getFilesystemPath(na), db.getFilesystemPath(na)]
+        def tb():
+          got['b'] = [db.getFilesystemPath(nb), db.getFilesystemPath(nb)]
+        sc.spawn('writer', ta)
+        sc.spawn('reactor', tb)
+        err = sc.run(20)
+        res.count('two_thread_schedules')
+        if err is not None:
+          res.inconc('scheduler: %r' % (err,))
+          return sc
+        for key, nm in (('a', na), ('b', nb)):
+          if any(t.exc for t in sc.threads):
+            res.violation(label + '/concurrent/raised', 'getFilesystemPath raised under concurrency: %r' % [t.exc for t in sc.threads])
+          elif got.get(key) != [expect[nm], expect[nm]]:
+            res.violation(label + '/concurrent/wrong-path', 'while another thread resolved %r, name %r was mapped to %r instead of %r (deviations %r)' % (
+              nb if key == 'a' else na, nm, got.get(key), expect[nm], dev), dict(names=[na, nb], deviations=dev))
+        return sc
+      s0 = run({})
+      for i in range(s0.decision_no + 1):
+        run({i: 1})
   # walk everything under the scratch parent: anything created outside the data dir is an escape
   outside = []
   known_decoys = {os.path.join(parent, d) for d in ('whisper-evil', 'x', 'b', 'a', 'log')}
